@@ -7,6 +7,7 @@ import DisjointImpls.Match
 import DisjointImpls.RevSub
 import DisjointImpls.Key
 import DisjointImpls.Bounds
+import DisjointImpls.Lemmas.MatchSound
 open DI
 
 def rToSx : R → Sx
@@ -25,7 +26,10 @@ def handle (cmd : String) (args : List Sx) : Sx :=
   | "supchk", [a, b] =>
       -- model result + the soundness statement evaluated on it
       match sup a b with
-      | .yes σ l => .list [.sym "yes", boolSx l, Subst.toSx σ, boolSx (erase (inst σ a) == erase b)]
+      | .yes σ l => .list [.sym "yes", boolSx l, Subst.toSx σ, boolSx (erase (inst σ a) == erase b),
+          -- hypotheses of C09_sound_wf / C09_binds_all_wf / C09_identity_wf evaluated on this case
+          boolSx (wf a && wf b && ignFaces a (stripTop b) && noConstParam b),
+          boolSx ((params a).all (fun n => (lookup σ n).isSome))]
       | r => rToSx r
   | "inst", _ =>
       match args with
